@@ -34,10 +34,88 @@ MUTS = {
  "M22-with-opset-shares-build-cache": ("src/spox/_graph.py", "self, _extra_opset_req=extra_opset_req, _build_result=_build.Cached()", "self, _extra_opset_req=extra_opset_req"),
  "M23-model-req-misses-extra": ("src/spox/_build.py", "set(self.main._extra_opset_req or ()).union(", "set().union("),
  "H3-model-req-from-main-graph-only": ("src/spox/_build.py", "*(node.opset_req for graph in self.graphs for node in self.scope_own[graph])", "*(node.opset_req for node in self.scope_own[self.main])"),
+ "I1-inline-kept-when-other-domain-differs": ("src/spox/_adapt.py", '    target_version = target_opsets[""]\n', """    target_version = target_opsets[""]
+    for imp in node.model.opset_import:
+        if imp.domain not in ("", "ai.onnx") and target_opsets.get(imp.domain, imp.version) != imp.version:
+            warnings.warn(RuntimeWarning(f"Node adapters are only supported for the default domain, but {imp.domain!r} is at {target_opsets[imp.domain]} versus requested {imp.version} of {node_name}."))
+            return protos
+"""),
+ "I2-inline-converter-initializers-fix-reverted": ("src/spox/_adapt.py", "        _initializers_to_constants(target_model.graph)\n", ""),
  "G1-functions-get-default-domain-opsets-only": ("src/spox/_graph.py", "proto = fun.to_onnx_function(extra_opset_req=opset_req)", "proto = fun.to_onnx_function(extra_opset_req=[(d, v) for d, v in opset_req if d == ''])"),
 }
 # several edits at once: (name, [(file, old, new), ...])
 MULTI = {
+ "F1-converter-names-deduplicated-process-wide": [
+    ("src/spox/_adapt.py", "def adapt_node(\n", """def _qualified(prefix: str, name: str, taken: set = set()) -> str:
+    cand = f"{prefix}__{name}"
+    k = 0
+    while cand in taken:
+        cand = f"{prefix}__{name}_{k}"
+        k += 1
+    taken.add(cand)
+    return cand
+
+
+def adapt_node(
+"""),
+    ("src/spox/_adapt.py", """    for nd in target_nodes:
+        for names in (nd.input, nd.output):""", """    _ren = {name: _qualified(proto.name, name) for name in sorted(introduced)}
+    for nd in target_nodes:
+        for names in (nd.input, nd.output):"""),
+    ("src/spox/_adapt.py", 'f"{proto.name}__{name}" if name in introduced else name for name in names', '_ren.get(name, name) for name in names'),
+ ],
+ "F2-converter-names-numbered-by-global-counter": [
+    ("src/spox/_adapt.py", "def adapt_node(\n", "import itertools as _it\n_FRESH = _it.count()\n\n\ndef adapt_node(\n"),
+    ("src/spox/_adapt.py", """    for nd in target_nodes:
+        for names in (nd.input, nd.output):""", """    _ren = {name: f"{proto.name}__{name}_{next(_FRESH)}" for name in sorted(introduced)}
+    for nd in target_nodes:
+        for names in (nd.input, nd.output):"""),
+    ("src/spox/_adapt.py", 'f"{proto.name}__{name}" if name in introduced else name for name in names', '_ren.get(name, name) for name in names'),
+ ],
+ "K1-adapted-protos-remembered-across-builds": [
+    ("src/spox/_graph.py", "@dataclass(frozen=True, eq=False)\nclass Graph:", "import weakref\n_ADAPTED: 'weakref.WeakKeyDictionary' = weakref.WeakKeyDictionary()\n\n\n@dataclass(frozen=True, eq=False)\nclass Graph:"),
+    ("src/spox/_graph.py", """            best_effort = adapt_best_effort(
+                node,
+                list(protos),
+                self.get_opsets(),
+                self._get_build_result().scope.var.name_of,
+                self._get_build_result().scope.node.name_of,
+            )
+""", """            _key = (self._get_build_result().scope.node.name_of[node], tuple(sorted(self.get_opsets().items())))
+            _memo = _ADAPTED.setdefault(node, {})
+            if _key not in _memo:
+                _memo[_key] = adapt_best_effort(
+                    node,
+                    list(protos),
+                    self.get_opsets(),
+                    self._get_build_result().scope.var.name_of,
+                    self._get_build_result().scope.node.name_of,
+                )
+            best_effort = _memo[_key]
+"""),
+ ],
+ "K2-adapted-protos-remembered-per-node-only": [
+    ("src/spox/_graph.py", "@dataclass(frozen=True, eq=False)\nclass Graph:", "import weakref\n_ADAPTED: 'weakref.WeakKeyDictionary' = weakref.WeakKeyDictionary()\n\n\n@dataclass(frozen=True, eq=False)\nclass Graph:"),
+    ("src/spox/_graph.py", """            best_effort = adapt_best_effort(
+                node,
+                list(protos),
+                self.get_opsets(),
+                self._get_build_result().scope.var.name_of,
+                self._get_build_result().scope.node.name_of,
+            )
+""", """            _key = tuple(sorted(self.get_opsets().items()))
+            _memo = _ADAPTED.setdefault(node, {})
+            if _key not in _memo:
+                _memo[_key] = adapt_best_effort(
+                    node,
+                    list(protos),
+                    self.get_opsets(),
+                    self._get_build_result().scope.var.name_of,
+                    self._get_build_result().scope.node.name_of,
+                )
+            best_effort = _memo[_key]
+"""),
+ ],
  "E1-policy-groups-by-raw-domain": [
     ("src/spox/_schemas.py", '    opset_req = {(k if k != "ai.onnx" else "", v) for k, v in opset_req}\n', ''),
     ("src/spox/_schemas.py", "return {domain: max(v for _, v in group) for domain, group in grouping}", "return {(domain if domain != 'ai.onnx' else ''): max(v for _, v in group) for domain, group in grouping}"),
